@@ -50,7 +50,11 @@ func c13ValidDoc(r *rand.Rand, must []string, extra bool) *c13J {
 		if r.IntN(8) == 0 {
 			stamp = "0"
 		}
-		doc.O = append(doc.O, c13KV{[]byte(n), c13Entry(fmt.Sprint(1+r.IntN(3)), c13Pick(r, c13Values), stamp)})
+		ver := fmt.Sprint(1 + r.IntN(3))
+		if r.IntN(8) == 0 {
+			ver = "0" // valid for the store; the file client skips it
+		}
+		doc.O = append(doc.O, c13KV{[]byte(n), c13Entry(ver, c13Pick(r, c13Values), stamp)})
 	}
 	return doc
 }
